@@ -113,3 +113,46 @@ Section BlockProofs.
     rewrite (G calls1 [] ltac:(simpl; lia)), (G calls2 [] ltac:(simpl; lia)). simpl. rewrite Hc. reflexivity.
   Qed.
 End BlockProofs.
+
+(** C11: at any point of a write history (a crash point) the blocks already emitted decode to exactly the first
+    floor (N / B) * B of the N items written so far; the rest (fewer than B items) is still in the writer's memory *)
+Section CrashPoints.
+  Context (B : nat) (HB : (0 < B)%nat) (enc dec : list Z -> list Z).
+  Context (Hdec : forall b, length b = B -> dec (enc b) = b).
+
+  Lemma emit_whole_blocks : forall fuel xs, exists m, length (read_all dec (fst (emit B enc fuel xs))) = (m * B)%nat.
+  Proof.
+    induction fuel as [|f IH]; intros xs; [exists 0%nat; reflexivity|]. cbn [emit].
+    destruct (Nat.leb B (length xs)) eqn:E; [|exists 0%nat; reflexivity]. apply Nat.leb_le in E.
+    destruct (IH (skipn B xs)) as [m Hm]. destruct (emit B enc f (skipn B xs)) as [b c]. simpl in *. exists (S m).
+    unfold read_all in *. cbn [map concat]. rewrite app_length, Hdec by (rewrite firstn_length; lia).
+    rewrite firstn_length. simpl. lia.
+  Qed.
+
+  Lemma write_calls_whole_blocks : forall calls carry, exists m, length (read_all dec (fst (write_calls B enc carry calls))) = (m * B)%nat.
+  Proof.
+    induction calls as [|c r IH]; intros carry; cbn [write_calls]; [exists 0%nat; reflexivity|].
+    unfold write_call. destruct (emit_whole_blocks (S (length (carry ++ c))) (carry ++ c)) as [m1 H1].
+    destruct (emit B enc (S (length (carry ++ c))) (carry ++ c)) as [b1 k1]. destruct (IH k1) as [m2 H2].
+    destruct (write_calls B enc k1 r) as [b2 k2]. simpl in *. exists (m1 + m2)%nat.
+    unfold read_all in *. rewrite map_app, concat_app, app_length, H1, H2. lia.
+  Qed.
+
+  Theorem crash_image_is_whole_block_prefix calls :
+    let '(bs, k) := write_calls B enc [] calls in
+    let xs := concat calls in
+    read_all dec bs = firstn (length xs - length k) xs /\ (length k < B)%nat /\
+    length (read_all dec bs) = (length xs / B * B)%nat.
+  Proof.
+    pose proof (write_calls_spec B HB enc dec Hdec calls [] ltac:(simpl; lia)) as W.
+    pose proof (write_calls_whole_blocks calls []) as [m Hm].
+    destruct (write_calls B enc [] calls) as [bs k]. destruct W as [W1 W2]. simpl in W1, Hm.
+    assert (Hlen : (length (read_all dec bs) + length k = length (concat calls))%nat) by (rewrite <- W1, app_length; reflexivity).
+    split; [|split; [assumption|]].
+    - rewrite <- W1 at 2. rewrite firstn_app.
+      replace (length (concat calls) - length k)%nat with (length (read_all dec bs)) by lia.
+      rewrite firstn_all, Nat.sub_diag. simpl. rewrite app_nil_r. reflexivity.
+    - rewrite Hm in *. assert ((length (concat calls) / B)%nat = m); [|subst; reflexivity].
+      symmetry. apply Nat.div_unique with (r := length k); lia.
+  Qed.
+End CrashPoints.
